@@ -372,7 +372,7 @@ class Body:
 
 
 class Program:
-    def __init__(self, facts_dir):
+    def __init__(self, facts_dir, known_fns_path=None):
         self.facts_dir = facts_dir
         self.bodies = {}
         self.adts = {}
@@ -396,6 +396,21 @@ class Program:
                 self.consts[c["def"] if crate == "anytls_rs" else crate + "::" + c["def"]] = c
             for s in d["statics"]:
                 self.statics[s["def"]] = s
+
+        # helpers outside the rules' vocabulary are spliced into their callers (see inline.py)
+        self.inline_report = {"unknown_functions": [], "spliced": []}
+        self.inlined_away = set()
+        kp = known_fns_path or os.path.join(os.path.dirname(os.path.dirname(os.path.dirname(os.path.abspath(__file__)))), "rules", "baseline_fns.txt")
+        if os.path.isfile(kp) and not os.environ.get("VERIF_NO_INLINE"):
+            with open(kp) as fh:
+                known = {l.strip() for l in fh if l.strip() and not l.startswith("#")}
+            from .inline import inline_unknown_helpers
+            self.inline_report = inline_unknown_helpers(self, known)
+
+    def scan(self):
+        """(key, body) of every body a crate-wide rule should look at: helper bodies that were spliced into all of
+        their callers are skipped (their code is examined in the callers' context)"""
+        return [(k, b) for k, b in self.bodies.items() if k not in self.inlined_away]
 
     def body(self, name):
         return self.bodies.get(name)
